@@ -50,6 +50,9 @@ type c11RTScenario struct {
 	Probes       []map[string]string `json:"probes,omitempty"`
 	ProbeDts     []int64             `json:"probe_dts"`
 	ViaFile      bool                `json:"via_file,omitempty"`
+	// ReloadMode: the matcher parser mode of the process that loads the snapshot ("" = the same: fallback; "classic" /
+	// "utf8": --enable-feature changed between the two process lives). The stored silences are data: every mode loads them all.
+	ReloadMode string `json:"reload_mode,omitempty"`
 
 	NfU         c11NfUniverse   `json:"nf_universe"`
 	NfInitial   []c11NfEntry    `json:"nf_initial,omitempty"`
@@ -75,6 +78,7 @@ func c11GenRT(t *rapid.T) c11RTScenario {
 	sc := c11RTScenario{
 		RetentionSec: rapid.SampledFrom([]int64{3600, 7200, 432000}).Draw(t, "retention"),
 		ViaFile:      rapid.IntRange(0, 3).Draw(t, "viaFile") == 0,
+		ReloadMode:   rapid.SampledFrom([]string{"", "", "", "classic", "utf8"}).Draw(t, "reloadMode"),
 		ProbeDts:     []int64{0, 3700, 3700, 20000},
 	}
 	empty := rapid.IntRange(0, 30).Draw(t, "empty") == 0
@@ -294,6 +298,12 @@ func c11RTSilences(sc *c11RTScenario, res *pbt.Result) {
 	load := func(b []byte, what string) (*silence.Silences, map[string]*silencepb.Silence, bool) {
 		var s *silence.Silences
 		var err error
+		if sc.ReloadMode != "" {
+			if merr := c13SetMode(sc.ReloadMode); merr != nil {
+				panic(merr)
+			}
+			defer c11SetMode()
+		}
 		if sc.ViaFile {
 			dir, derr := os.MkdirTemp("", "c11rt")
 			if derr != nil {
@@ -622,7 +632,7 @@ func c11RTNflog(sc *c11RTScenario, res *pbt.Result) {
 func TestC11RoundTrip(t *testing.T) {
 	pbt.Run(t, pbt.Spec[c11RTScenario]{
 		Property: "C11", Name: "C11RoundTrip",
-		Rule: "virtual time; silence store built from an optional hand-written initial file (current format, OLD single-matcher-list format, deprecated comments list; entries past their expiry allowed) + 0-12 API operations (Set new / edit in place / replace matchers / Expire / Merge of hand-written peer records in old and new format / sleep / GC) + 0..300 (thorough ..4000) bulk Sets; fields: 1-3 matcher sets x 1-3 matchers, all four operators, regex ASTs, UTF-8 names and values, annotations, empty comment, receiver matcher sets, ns timestamps. Notification log built from a hand-written initial file (deprecated group_hash/resolved fields) + Log with arbitrary hashes and str/int/float receiver data (NaN, Inf, extremes) + the real DedupStage->SetNotifiesStage pipeline + Merge + sleep + GC + bulk. Oracle: Snapshot -> New(SnapshotReader | SnapshotFile) never errors; Query equal (proto.Equal per id / per key) for everything not past its expiry; old-format records appear upgraded exactly; a second generation equals the first; Silencer.Mutes on 64+ label sets at 4 instants equal between original and reloaded store and equal to the reference semantics over the reference matcher ASTs; DedupStage decisions (+reason) equal on original and reloaded log; a notification just logged for firing alerts is not repeated by the reloaded log inside the repeat interval. Records above protodelim's 4 MiB limit are not generated here (sub-check C11RecordSize). Non-trivial: the snapshotted state holds >=1 silence with >=2 matcher sets or >=1 silence that came from an old-format record. Distinct by scenario digest.",
+		Rule: "virtual time; silence store built from an optional hand-written initial file (current format, OLD single-matcher-list format, deprecated comments list; entries past their expiry allowed) + 0-12 API operations (Set new / edit in place / replace matchers / Expire / Merge of hand-written peer records in old and new format / sleep / GC) + 0..300 (thorough ..4000) bulk Sets; fields: 1-3 matcher sets x 1-3 matchers, all four operators, regex ASTs, UTF-8 names and values, annotations, empty comment, receiver matcher sets, ns timestamps. Notification log built from a hand-written initial file (deprecated group_hash/resolved fields) + Log with arbitrary hashes and str/int/float receiver data (NaN, Inf, extremes) + the real DedupStage->SetNotifiesStage pipeline + Merge + sleep + GC + bulk. Oracle: Snapshot -> New(SnapshotReader | SnapshotFile), in two cases of five by a process running in classic or UTF-8 strict matcher mode, never errors; Query equal (proto.Equal per id / per key) for everything not past its expiry; old-format records appear upgraded exactly; a second generation equals the first; Silencer.Mutes on 64+ label sets at 4 instants equal between original and reloaded store and equal to the reference semantics over the reference matcher ASTs; DedupStage decisions (+reason) equal on original and reloaded log; a notification just logged for firing alerts is not repeated by the reloaded log inside the repeat interval. Records above protodelim's 4 MiB limit are not generated here (sub-check C11RecordSize). Non-trivial: the snapshotted state holds >=1 silence with >=2 matcher sets or >=1 silence that came from an old-format record. Distinct by scenario digest.",
 		Gen:  c11GenRT, Exec: c11ExecRT,
 	})
 }
